@@ -15,6 +15,20 @@ CLAIMED = {
         ref='5/C20', technique='CBMC assertions over the real constant table, codes extracted mechanically from cif.h on every run'),
 }
 
+CLAIMED.update({
+    'C09': dict(
+        text='Partial: the accept/reject boundary of codes, data names and table keys (cif_has_whitespace, cif_has_disallowed_chars, '
+             'cif_is_valid_name, normalize_* wrappers) is proved against a specification of the CIF 2.0 character and name rules, loops closed '
+             'by invariants; normalisation itself (ICU) and key matching inside SQLite are assumed, as the evidence states on every run.',
+        note='Trusted: CBMC; ICU u_countChar32/unorm_normalize/u_strFoldCase by assumed contract; SQL matching not decided.',
+        ref='5/C09'),
+    'C18': dict(
+        text='cif_is_reserved_string: complete proof (loop-free) of equivalence with the reserved-form specification and of not reading past the NUL; '
+             'further C18 functions are added as jobs of the same check.',
+        note='Trusted: CBMC; the specification macros in contracts/preds.h (written from the CIF 2.0 grammar).',
+        ref='5/C18'),
+})
+
 NOT_APPLICABLE = {
     'C04': 'The abstract state (tables, keys, cascades, triggers) and every transition are SQL text interpreted by SQLite at run time; a C-level '
            'contract can only say that the SQL string was handed to SQLite. A relational contract per statement would be a hand-written model '
